@@ -23,13 +23,13 @@ def digest_case(run, task):
     mod = module(config, run)
     fname = 'h_blake%d' % variant
     msg = T.var('msg', 8 * L)
-    args = [Buf('msg', L, init=msg, writable=False), Sc('len', 64, L), Buf('out', 128, init=T.var('out0', 1024))]
+    args = [Buf('msg', L, init=msg, writable=False), Sc('len', 64, L), Buf('out', 512, init=T.var('out0', 4096))]
     t0 = time.time()
     res, ex = entry.run(mod, fname, args)
     run.exec_s += time.time() - t0
     run.note_functions(execu.demangle_hint(f) for f in ex.funcs_run)
     exp = spec.digest(msg, L, variant)
-    full = T.concat([exp, T.extract(T.var('out0', 1024), 8 * dn, 1024 - 8 * dn)])
+    full = T.concat([exp, T.extract(T.var('out0', 4096), 8 * dn, 4096 - 8 * dn)])
     for r in res:
         arm = arm_name(r.pc)
         name = 'blake%d/digest/%s/L=%d/arm[%s]' % (variant, config, L, arm)
@@ -45,9 +45,7 @@ def digest_case(run, task):
                 confirm(run, config, fname, args, model, key, 'Blake%d %s on the %s backend (%s) [L=%d]' % (variant, r.status, 'portable' if 'nosimd' in config else arm, r.detail[:80], L), kind='fault')
             continue
         got = r.mem(r.named['out'])
-        wb = w
-        pairs = [(T.extract(got, wb * i, wb), T.extract(full, wb * i, wb)) for i in range(1024 // wb)]
-        ob = run.equal(name, pairs, r.pc, timeout_s=120)
+        ob = run.equal_spec(name, got, lambda: T.concat([spec.digest(msg, L, variant), T.extract(T.var('out0', 4096), 8 * dn, 4096 - 8 * dn)]), r.pc, timeout_s=120, split=w)
         if ob.status == 'sat':
             key = 'blake%d:digest:%s' % (variant, 'portable' if 'nosimd' in config else ('sse2-class' if '!ssse3' in arm else arm))
             confirm(run, config, fname, args, ob.model, key, 'Blake%d digest differs from the specification [L=%d %s arm %s]' % (variant, L, config, arm), exp={'out': full})
@@ -64,15 +62,16 @@ def step_case(run, task):
     t0v, t1v = T.extract(t, 0, w), T.extract(t, w, w)
     args = [Buf('h', w, init=hbits, writable=False), Sc('t0', 64, T.zext(t0v, 64)), Sc('t1', 64, T.zext(t1v, 64)),
             Buf('prefill', p, init=pre, writable=False), Sc('p', 64, p), Buf('msg', n, init=msg, writable=False), Sc('len', 64, n),
-            Buf('out', 128, init=T.var('out0', 1024))]
+            Buf('out', 512, init=T.var('out0', 4096))]
     t0 = time.time()
-    res, ex = entry.run(mod, fname, args)
+    # format limit: the bit counter has 2w bits; longer messages are outside the claim
+    res, ex = entry.run(mod, fname, args, pre=lambda e: e.assume(T.ult(t, T.const((1 << (2 * w)) - (1 << 20), 2 * w)), True))
     run.exec_s += time.time() - t0
     run.note_functions(execu.demangle_hint(f) for f in ex.funcs_run)
     h0 = [T.extract(hbits, w * i, w) for i in range(8)]
     allmsg = T.concat([pre, msg])
     exp = spec.digest(allmsg, p + n, variant, h0=h0, t_offset=t)
-    full = T.concat([exp, T.extract(T.var('out0', 1024), 8 * dn, 1024 - 8 * dn)])
+    full = T.concat([exp, T.extract(T.var('out0', 4096), 8 * dn, 4096 - 8 * dn)])
     for r in res:
         arm = arm_name(r.pc)
         name = 'blake%d/step/%s/p=%d/n=%d/arm[%s]' % (variant, config, p, n, arm)
@@ -93,9 +92,14 @@ def step_case(run, task):
                     what = 'Blake%d update/finalize %s (%s)' % (variant, r.status, r.detail[:80])
                 confirm(run, config, fname, args, model, key, what, kind='fault')
             continue
+        if config.startswith('devchk'):
+            continue    # overflow-checked profile: only panic reachability is decided here (values are proved on the release IR)
         got = r.mem(r.named['out'])
-        pairs = [(T.extract(got, w * i, w), T.extract(full, w * i, w)) for i in range(1024 // w)]
-        ob = run.equal(name, pairs, r.pc, timeout_s=120)
+
+        def specf():
+            e = spec.digest(allmsg, p + n, variant, h0=h0, t_offset=t)
+            return T.concat([e, T.extract(T.var('out0', 4096), 8 * dn, 4096 - 8 * dn)])
+        ob = run.equal_spec(name, got, specf, r.pc, timeout_s=120, split=w, impl_fn=lambda: (lambda r2: r2.mem(r2.named['out']))(entry.rerun(ex, r)))
         if ob.status == 'sat':
             key = 'blake%d:step:%s' % (variant, 'portable' if 'nosimd' in config else ('sse2-class' if '!ssse3' in arm else arm))
             confirm(run, config, fname, args, ob.model, key, 'Blake%d from an arbitrary state: digest differs from the specification [p=%d n=%d t=%#x %s]' % (variant, p, n, ob.model.get('t', 0), config), exp={'out': full})
@@ -129,7 +133,7 @@ def body(run, a):
     mod = module('release-std', run)
     L = 3
     msg = T.var('msg', 8 * L)
-    args = [Buf('msg', L, init=msg, writable=False), Sc('len', 64, L), Buf('out', 128, init=T.var('out0', 1024))]
+    args = [Buf('msg', L, init=msg, writable=False), Sc('len', 64, L), Buf('out', 512, init=T.var('out0', 4096))]
     res, ex = entry.run(mod, 'h_blake256', args)
     r = [x for x in res if x.status == 'ret'][0]
     got = r.mem(r.named['out'], 0, 32)
